@@ -126,7 +126,7 @@ def goal_src(g):
         return 'false'
     if k == 'conj':
         return '[%s]' % ', '.join(goal_src(x) for x in g[1])
-    if k in ('conde', 'cond', 'conda', 'condu'):
+    if k in ('conde', 'cond', 'conda', 'condu', 'dfsor', 'bfsor'):
         return '%s { %s }' % (k, ', '.join(clause_src(c) for c in g[1]))
     if k in ('onceo', 'dfs', 'loop', 'anyo'):
         return '%s { %s }' % (k, ', '.join(clause_src(x) if isinstance(x, list) else goal_src(x) for x in g[1]))
@@ -286,6 +286,29 @@ impl Solve<TU, TE> for Succ {
     }
 }
 
+/// Non-relational observer: compares the two terms THEMSELVES with Rust `==` at solve time (no walk) and unifies
+/// `out` with 1 if they are the same term, else 0.
+#[derive(Debug)]
+pub struct SameVar {
+    u: T,
+    v: T,
+    out: T,
+}
+
+impl Solve<TU, TE> for SameVar {
+    fn solve(&self, _solver: &Solver<TU, TE>, state: State<TU, TE>) -> Stream<TU, TE> {
+        let same = if self.u == self.v { 1 } else { 0 };
+        match state.unify(&LTerm::from(same), &self.out) {
+            Ok(st) => Stream::unit(Box::new(st)),
+            Err(_) => Stream::empty(),
+        }
+    }
+}
+
+pub fn samevar(u: T, v: T, out: T) -> Goal<TU, TE> {
+    Goal::dynamic(Rc::new(SameVar { u, v, out }))
+}
+
 @@USER_RS@@
 pub fn succ(u: T, v: T) -> Goal<TU, TE> {
     Goal::dynamic(Rc::new(Succ { u, v, mode: 0 }))
@@ -316,6 +339,27 @@ pub fn nevero(x: T) -> Goal<TU, TE> {
 /// Silent diverger usable inside `dfs { }` as well: every recursion is wrapped in a closure, so every search step is finite.
 pub fn spin<G: AnyGoal<TU, TE>>() -> proto_vulcan::goal::InferredGoal<TU, TE, G> {
     proto_vulcan_closure!([true, spin()])
+}
+
+/// User-defined operators over the crate's binary disjunction nodes (`operator::disj`), which the built-in syntax never builds.
+pub fn dfsor(param: proto_vulcan::operator::OperatorParam<TU, TE, proto_vulcan::goal::DFSGoal<TU, TE>>) -> proto_vulcan::goal::DFSGoal<TU, TE> {
+    proto_vulcan::operator::disj::DFSDisj::from_conjunctions(param.body)
+}
+
+pub fn bfsor(param: proto_vulcan::operator::OperatorParam<TU, TE, Goal<TU, TE>>) -> Goal<TU, TE> {
+    proto_vulcan::operator::disj::Disj::from_conjunctions(param.body)
+}
+
+/// Rust-written goal using the mutable list API on its own clone of a bound term: out == walk(x) with `v` appended.
+pub fn pusho(x: T, v: T, out: T) -> Goal<TU, TE> {
+    proto_vulcan!(fngoal move |_solver, state| {
+        let mut l: T = state.smap_ref().walk(&x).clone();
+        l.extend(Some(v.clone()));
+        match state.unify(&out, &l) {
+            Ok(st) => Stream::unit(Box::new(st)),
+            Err(_) => Stream::empty(),
+        }
+    })
 }
 
 /// The same goal value solved twice in a row.
@@ -660,7 +704,7 @@ class Ref(object):
             return [st2] if st2 is not None else []
         if k in ('conj', 'dfs'):
             return self.run_conj(flat(g[1]), st, env, depth)
-        if k in ('conde', 'cond'):
+        if k in ('conde', 'cond', 'dfsor', 'bfsor'):
             out = []
             for clause in g[1]:
                 out += self.run_conj(clause, st, env, depth)
@@ -840,6 +884,20 @@ class Ref(object):
             # [hook balance (must be 0), number of process_extension calls, size of the last extension]
             rec = ('cons', ('num', 0), ('cons', ('num', st.ext[0]), ('cons', ('num', st.ext[1]), ('nil',))))
             return self.eq_goal_raw(args[0], rec, st)
+        if name == 'pusho':
+            xx, v, o = args
+            l = self.walk_star(xx, st.s)
+            items, cur = [], l
+            while cur[0] == 'cons':
+                items.append(cur[1])
+                cur = cur[2]
+            if cur[0] != 'nil':
+                raise NotEncodable('pusho on a non-list')
+            return self.eq_goal(o, enc_list(items + [v]), st)
+        if name == 'samevar':
+            # the observer sees its arguments as they are (inside project: walk*-ed terms)
+            u, v, o = args
+            return self.eq_goal(('num', 1 if u == v else 0), o, st)
         if name == 'succ_head':
             u, v = args
             if u[0] != 'cons':
